@@ -143,6 +143,9 @@ func (p *Path) intrinsic(fn *ssa.Function, args []Value) (Value, bool) {
 		p.detObs = append(p.detObs, Obs{Label: constStr(p, args[0], "label"), Val: strArg(args[1])})
 		p.obs = append(p.obs, Obs{Label: "det:" + constStr(p, args[0], "label"), Val: strArg(args[1])})
 		return nil, true
+	case "verifGoListOutput":
+		p.cmdOutput = args[0].(*Term)
+		return nil, true
 	case "verifObserve":
 		p.obs = append(p.obs, Obs{Label: constStr(p, args[0], "observe label"), Val: strArg(args[1])})
 		return nil, true
